@@ -9,3 +9,7 @@ Check Props.C04.C04_stop_is_a_barrier :
 Check Props.C04.C04_last_drop_drains :
   forall s a s' x, step s (EvCbBegin a CbStopped) = Acc s' -> actors s a = Some x -> a_phase x = PhIdle ->
   a_queue x = [] /\ a_tx x = 0 /\ a_ftx x = 0 /\ a_inflight x = 0.
+Check Props.C04.C04_nothing_queued_behind_a_stop_is_handled :
+  forall tr1 tr2 s1 s2 s3 a x1 o1 o2,
+  run init tr1 = Acc s1 -> actors s1 a = Some x1 -> Inv.C04b.behind_stop (a_queue x1) o1 o2 ->
+  run s1 tr2 = Acc s2 -> step s2 (EvHBegin a o2) = Acc s3 -> False.
